@@ -46,6 +46,7 @@ class Gen:
         self.used = set()
         self.cls = {}           # clock id -> class representative (python's belief of the pin source)
         self.fwd_open = []      # (sig, clk)
+        self.drive = {}         # clock id -> "exp" | "sim" | "both"
         self.mems = []
         self.mem_wclk = {}
         self.mem_has_read = set()
@@ -111,23 +112,33 @@ class Gen:
             return self.r.choice(l) if l else c
         return self.r.choice([k for k in self.cls if self.cls[k] == self.cls[c]])
 
+    def derive(self, c, par, variant):
+        """derived clock c; its clock net may be driven by logic in both views / the export view only /
+        the simulation view only -- any of these makes it a domain of its own"""
+        r = self.r
+        self.emit(f"clock {c} derive {par} {variant}")
+        mode = r.choices(["none", "exp", "sim", "both"], [0.55, 0.2, 0.1, 0.15])[0]
+        if mode != "none":
+            self.drive[c] = mode
+        own = mode != "none" or variant in ("name", "mult", "nophase")
+        self.cls[c] = c if own else self.cls[par]
+
     def make_clocks(self):
         r = self.r
         f = r.choice([10000, 25000, 100000])
         self.emit(f"clock 0 root {f} clkA"); self.cls[0] = 0
         # second root, sometimes with the SAME frequency (still a different source)
         self.emit(f"clock 1 root {f if r.random() < 0.5 else f * 3} clkB"); self.cls[1] = 1
+        if r.random() < 0.05:
+            self.drive[1] = r.choice(["exp", "sim", "both"])      # a root clock is its own source anyway
         nxt = 2
-        if r.random() < 0.85:     # derived clock that shares its parent's pin source
-            par = r.choice([0, 1])
-            self.emit(f"clock {nxt} derive {par} {r.choice(['same', 'rst', 'attr'])}"); self.cls[nxt] = self.cls[par]; nxt += 1
+        if r.random() < 0.85:     # derived clock that shares its parent's pin source (unless logic drives it)
+            self.derive(nxt, r.choice([0, 1]), r.choice(['same', 'rst', 'attr'])); nxt += 1
         if r.random() < 0.7:      # derived clock with a different source
-            par = r.choice(list(self.cls))
-            self.emit(f"clock {nxt} derive {par} {r.choice(['name', 'mult', 'nophase'])}"); self.cls[nxt] = nxt; nxt += 1
+            self.derive(nxt, r.choice(list(self.cls)), r.choice(['name', 'mult', 'nophase'])); nxt += 1
         if r.random() < 0.35:     # grandchild: shares through two levels / or breaks at the second
             par = r.choice([k for k in self.cls if k >= 2] or [0])
-            v = r.choice(['same', 'attr', 'rst', 'mult'])
-            self.emit(f"clock {nxt} derive {par} {v}"); self.cls[nxt] = nxt if v == 'mult' else self.cls[par]; nxt += 1
+            self.derive(nxt, par, r.choice(['same', 'attr', 'rst', 'mult'])); nxt += 1
         if r.random() < 0.15:
             self.emit(f"clock {nxt} default"); self.cls[nxt] = nxt; nxt += 1
 
@@ -289,6 +300,10 @@ class Gen:
         weights = [r.choice([1, 2, 4]) for _ in cl]
         for c in cl[:2]:
             self.step_pin(c)
+        for c, mode in sorted(self.drive.items()):
+            d = r.choice([0, 1])
+            self.used.add(d)
+            self.emit(f"clkdrive {c} {d} {mode}")
         for _ in range(self.size):
             t = r.choices(cl, weights)[0]
             x = r.random()
@@ -356,6 +371,51 @@ def gen_batch(seed, count, tier, tag="g"):
     return progs
 
 
+def gen_drive_family(seed, tag="d"):
+    """Systematic family: derived clock x {undriven, logic-driven in both views, export view only,
+    simulation view only} x {same attributes, other reset, other attribute, renamed, frequency-scaled}
+    x crossing direction x {unmarked, marked}.  Small designs; the verdict is computed by the model /
+    oracle from the dump."""
+    rng = random.Random(seed * 104729 + 7)
+    progs = []
+    k = 0
+    for variant in ("same", "rst", "attr", "name", "mult"):
+        for mode in ("none", "both", "exp", "sim"):
+            for direction in ("p2d", "d2p"):
+                for marked in (False, True):
+                    f = rng.choice([10000, 25000, 100000])
+                    L = [f"design {tag}{seed}_{k}", f"clock 0 root {f} clkA", f"clock 1 root {f * rng.choice([1, 3])} clkB"]
+                    sib = rng.random() < 0.5
+                    if sib:
+                        L.append(f"clock 2 derive 0 {rng.choice(['same', 'rst', 'attr'])}")   # undriven sibling: the parent's family
+                    D = 3 if sib else 2
+                    par = 2 if sib and rng.random() < 0.3 else 0                               # sometimes a grandchild
+                    L.append(f"clock {D} derive {par} {variant}")
+                    fam = 2 if sib and rng.random() < 0.5 else 0                               # a clock of the parent's family
+                    L += [f"pin 0 {fam}", f"pin 1 {D}", f"pin 2 1"]
+                    if mode != "none":
+                        L.append(f"clkdrive {D} {rng.choice([0, 2])} {mode}")
+                    src_c, dst_c, src_s = (fam, D, 0) if direction == "p2d" else (D, fam, 1)
+                    rst = rng.choice([0, 1])
+                    L.append(f"reg 3 {src_c} {src_s} {rst} -")
+                    x = 3
+                    if rng.random() < 0.4:
+                        L += ["const 4 5", "op 5 xor 3 4"]; x = 5
+                    if marked:
+                        L.append(f"cdc 6 {x} {src_c} {dst_c}"); x = 6
+                    other = 1 if direction == "p2d" else 0
+                    if rng.random() < 0.5:
+                        L.append(f"op 7 add {x} {other}"); x = 7
+                    L.append(f"reg 8 {dst_c} {x} {rng.choice([0, 1])} -")
+                    L.append(f"out {dst_c} 8")
+                    L.append("end")
+                    progs.append(dict(name=f"{tag}{seed}_{k}", lines=L, flavor="clockdrive", crossings=1,
+                                      unmarked=0 if marked else 1, wrong=0, mem=False, unk=False,
+                                      family=dict(variant=variant, drive=mode, direction=direction, marked=marked)))
+                    k += 1
+    return progs
+
+
 # ----------------------------------------------------------------------------
 # dump parsing + independent oracle
 # ----------------------------------------------------------------------------
@@ -409,7 +469,8 @@ def oracle(blk):
         if c["parent"] == "-":
             return False
         p = clocks[int(c["parent"])]
-        return c["self"] == "1" and p["name"] == c["name"] and (p["fnum"], p["fden"]) == (c["fnum"], c["fden"]) and c["phase"] == "1"
+        # the clock net must be free of logic drivers in BOTH views (simulation and export)
+        return c["selfsim"] == "1" and c["selfexp"] == "1" and p["name"] == c["name"] and (p["fnum"], p["fden"]) == (c["fnum"], c["fden"]) and c["phase"] == "1"
 
     def pin(i):
         seen = 0
@@ -688,6 +749,8 @@ def shrink(prog, kind, harness, deadline):
                 elif k == "mwr":
                     if int(t[1]) not in defined_m or int(t[2]) not in defined_c: return False
                     if int(t[3]) not in defined_s or int(t[4]) not in defined_s: return False
+                elif k == "clkdrive":
+                    if int(t[1]) not in defined_c or int(t[2]) not in defined_s: return False
                 elif k == "clk2sig":
                     if int(t[2]) not in defined_c: return False
                     defined_s.add(int(t[1]))
@@ -739,7 +802,10 @@ def main():
     else:
         count = 400 if tier == "quick" else 8000
         # C12_NO_CORPUS=1 is a test knob (used to confirm that the generated designs alone catch a mutation)
-        progs = ([] if os.environ.get("C12_NO_CORPUS") else corpus_programs()) + gen_batch(seed, count, tier)
+        progs = ([] if os.environ.get("C12_NO_CORPUS") else corpus_programs()) + gen_drive_family(seed) + gen_batch(seed, count, tier)
+        if tier == "thorough":
+            for j in range(1, 6):
+                progs += gen_drive_family(seed * 100 + j, tag="e")
 
     broken = []
     if not res["ok"]:
@@ -789,6 +855,15 @@ def main():
                                 by_flavor=flav, node_kinds=st["kinds"], domain_entries=st["dom_types"],
                                 flagged_nodes=st["flagged_nodes"], largest_netlist_nodes=st["max_nodes"],
                                 soft_other_exceptions=[s["detail"][:120] for s in soft[:5]])
+    fam = {}
+    for p in progs:
+        if p.get("family"):
+            fm = p["family"]
+            key = f"{fm['variant']}/{fm['drive']}/{'marked' if fm['marked'] else 'unmarked'}"
+            v = dumps.get(p["name"], {}).get("verdict", "?").split()[0]
+            fam.setdefault(key, {}).setdefault(v, 0)
+            fam[key][v] += 1
+    rep.cov["histogram"]["derived_clock_family(variant/clock-net-driver/marking -> outcome)"] = fam
     rep.cov["model_lines_compared"] = st["lines_compared"]
     rep.assumptions = [
         "the Coq definitions relation / check_valid / pin_source / process are hand transcriptions of getOutputClockRelation, checkValidInputClocks, "
